@@ -485,7 +485,8 @@ func posOfCall(names []string, suffix string) int {
 
 func init() {
 	sections = append(sections, func() {
-		out.WriteString("/-! ### store facts (C15): guards, Revision++, IfVersion, call order, watch structure -/\n\n")
+		out.WriteString("/-! ### store facts (C15): guards, Revision++, IfVersion, call order, watch structure -/\n\nnamespace StoreFacts\n\n")
+		defer out.WriteString("end StoreFacts\n\n")
 		out.WriteString("/-- a field of a stored record that a store wrapper inspects -/\ninductive GField\n  | id | targetID | txIndex | revision | version | key | targetType | targetVersion | other\nderiving DecidableEq, Repr\n\n")
 		out.WriteString("/-- `if obj.<field> == <zero value> { return errors.NewInvalid(…) }` (isZero) or `!=` (¬isZero) -/\nstructure GGuard where\n  field : GField\n  isZero : Bool\nderiving DecidableEq, Repr\n\n")
 		for _, src := range storeSrcs {
